@@ -48,7 +48,10 @@ def url_text(rng):
     pre = rng.choice(["", "", "", " ", "\t", "&#9;", "&#10;", "&#x1;", "\x01", "%20", "&Tab;", "&NewLine;", " "])
     colon = rng.choice([":", ":", ":", "&colon;", "&#58;", "&#x3a;", "%3a", "\\:"])
     rest = rng.choice(["alert(1)", "//x.y/z", "a b", "é\"<>`", "x//data:image/png;", "%41%zz%", "//h/p?q=1#f", "", "x'y", "(a(b)c)",
-                       "image/png;alert(1)", "image/gif;base64,x", "IMAGE/webp;x", "image/jpeg;", "text/html,x"])
+                       "image/png;alert(1)", "image/gif;base64,x", "IMAGE/webp;x", "image/jpeg;", "text/html,x",
+                       # authority forms: bracketed (IPv6-style) hosts, userinfo, ports - with characters that must end up encoded
+                       "//[::\u00e9]/", "//[:\x0b:]", "//[fe80::1\u3000x]/p", "//[::1]:80/\u00e9", "//u\u00e9:p@h\u00f6st:8/\u00e4?\u00fc#\u00df",
+                       "//[v1.a\"b]/", "//h\\x/[y]"])
     # blanks / controls that can only arrive through a character reference, at the very end of the destination
     post = rng.choice(["", "", "", "&#10;", "&#x0A;", "&NewLine;", "&#9;", "&Tab;", "&#13;", "&#32;", "&#xA0;", "&#12;", "&#x85;", "&#x2028;"])
     if rng.random() < 0.2:
